@@ -10,9 +10,16 @@ THEOREMS = ["C07_referral_strictly_deeper", "C07_auth_answer_from_universe", "C0
             "C07_referral_progress", "C07_no_referral_same_delegation", "C07_answer_provenance", "C07_filter_accepts_plain_answer", "C07_filter_accepts_denial", "C07_filter_accepts_referral", "C07_serve_is_auth_answer", "C07_last_hop_partial", "C07_referral_hop_partial", "C07_universe_oracle_delivers"]
 RULE = ("cases: generated consistent universes (root + a chain of 1..5 nested zones, optional provider branch for "
         "out-of-bailiwick nameserver names, optional second branch for cross-zone aliases; 1..3 nameservers per zone, "
-        "in-bailiwick / sibling / out-of-bailiwick names, glue present or absent, v4-only / v6-only / dual addresses) x "
+        "in-bailiwick / sibling / out-of-bailiwick names, glue present or absent, v4-only / v6-only / dual addresses; alias "
+        "chains of 1..4 links inside a zone, child -> parent, parent -> child, out to another branch and back, ending at an "
+        "existing name, a name with other types only, a missing name; optionally zones whose only nameservers are shared "
+        "glueless names of another zone, with alias chains leaving such a zone and coming back to one) x "
         "sequences of 1..8 questions sharing one cache (existing names and types, NODATA, NXDOMAIN, empty non-terminals, "
         "in-zone and cross-zone CNAME chains, nameserver host names, apex NS/SOA, >512-byte answers) x 4 protocol modes; "
+        "shapes counted by `kind`: rnd = questions drawn from the universe's pool; retypeN = an alias with N >= 2 links asked "
+        "for one type and then again for other types (links cached, end of the chain not); apex = existing and missing types "
+        "asked AT zone apexes of every depth (root, provider and hosted zones included), cold and with the zone's delegation "
+        "cached; hostedN = cold-cache alias chains through zones sharing N glueless out-of-bailiwick nameserver names; "
         "non-trivial = distinct case in which some question needed at least two upstream exchanges")
 ASSUMPTIONS = [
     "C07 hypothesis, stated not hidden: every listed nameserver answers (the first candidate that gives no usable reply "
@@ -80,20 +87,105 @@ def corpus(batch):
     return out
 
 
+def plain_universe(zones):
+    """zones: [(apex, [(host, family)], glue?)] in creation order (a host's own zone before the zones it serves)"""
+    u = rg.Universe()
+    for apex, hosts, glue in zones:
+        u.add_zone(apex, [h for h, _ in hosts])
+        for h, fam in hosts:
+            u.add_host(h, fam)
+        u.finish_zone(apex, [h for h, _ in hosts] if glue else [])
+    u.chain, u.other = [a for a, _, _ in zones if a != "."], None
+    return u
+
+
+def corpus_shapes(batch):
+    """the situations the seeded reviews found missing, as small fixed universes"""
+    out = []
+    A, TXT, AAAA, MX, NS = tok.A, tok.TXT, tok.AAAA, tok.MX, tok.NS
+
+    def add(u, qs, kind, mode="rp4"):
+        out.append(rg.CaseBuilder(batch, u, mode, 53, qs, flags={"kind": kind, "ff": "1", "modeok": "1"}))
+
+    # (1) an alias of two / three links, across zones and inside one, asked for one type and then for another: the
+    # links come from the cache, the end of the chain from upstream; every link is listed once
+    u = plain_universe([(".", [("a.root-servers.", "4")], False), ("one.", [("ns1.one.", "4")], True),
+                        ("two.", [("ns1.two.", "4")], True), ("three.", [("ns1.three.", "4")], True)])
+    rg.add_alias(u, "alias.one.", "mid.two.")
+    rg.add_alias(u, "mid.two.", "host.three.")
+    u.zones["three."].rrs += [("host.three.", A, 300, rg.v4(0xC0000201)), ("in1.three.", tok.CNAME, 60, tok.rd_name(tok.name("in2.three."))),
+                              ("in2.three.", tok.CNAME, 60, tok.rd_name(tok.name("in3.three."))),
+                              ("in3.three.", tok.CNAME, 60, tok.rd_name(tok.name("host.three.")))]
+    rg.add_alias(u, "single.one.", "host.three.")
+    for qs in ([("alias.one.", A), ("alias.one.", TXT)], [("alias.one.", TXT), ("alias.one.", A)],
+               [("alias.one.", A), ("alias.one.", AAAA), ("alias.one.", MX), ("alias.one.", A)],
+               [("in1.three.", A), ("in1.three.", TXT)], [("in1.three.", MX), ("in2.three.", TXT), ("in1.three.", A)],
+               [("in2.three.", A), ("in1.three.", TXT)], [("single.one.", A), ("single.one.", TXT)]):
+        add(u, qs, "corpus-retype")
+    # (2) a type that does not exist AT a zone apex (question name = SOA owner), at every depth: empty answer + SOA
+    u = plain_universe([(".", [("a.root-servers.", "4")], False), ("corp.", [("ns1.corp.", "4")], True),
+                        ("dept.corp.", [("ns1.dept.corp.", "4")], True), ("lab.dept.corp.", [("ns1.lab.dept.corp.", "46")], True)])
+    u.zones["corp."].rrs += [("corp.", MX, 300, tok.rd_mx(10, tok.name("mail.corp."))), ("www.corp.", A, 300, rg.v4(0xC0000211))]
+    u.zones["dept.corp."].rrs += [("www.dept.corp.", A, 300, rg.v4(0xC0000212))]
+    for qs in ([("corp.", A)], [("dept.corp.", AAAA)], [("lab.dept.corp.", TXT)], [(".", A)], [(".", TXT), ("corp.", TXT)],
+               [("www.corp.", A), ("corp.", A), ("corp.", MX)], [("www.dept.corp.", A), ("dept.corp.", A), ("corp.", AAAA)],
+               [("corp.", NS), ("corp.", A)], [("lab.dept.corp.", MX), ("dept.corp.", MX), ("corp.", MX), (".", MX)]):
+        add(u, qs, "corpus-apex-nodata")
+    # (3) two zones on one alias chain whose only nameserver is the same glueless name of a third zone: the name is
+    # resolved by a nested resolution on the way into the first zone and needed again for the second one
+    for shared in (["ns.hoster."], ["ns.hoster.", "nsb.hoster."]):
+        u = plain_universe([(".", [("a.root-servers.", "4")], False), ("hoster.", [("ns1.hoster.", "4")], True),
+                            ("m.", [("ns1.m.", "4")], True)])
+        for h in shared:
+            u.add_host(h, "4")
+        for apex in ("a.", "b.", "sub.b."):
+            u.add_zone(apex, shared)
+            u.finish_zone(apex, [])
+        rg.add_alias(u, "www.a.", "www.m.")
+        rg.add_alias(u, "www.m.", "www.b.")
+        rg.add_alias(u, "back.a.", "back.m.")
+        rg.add_alias(u, "back.m.", "host.a.")
+        rg.add_alias(u, "deep.m.", "www.sub.b.")
+        rg.add_alias(u, "deep.a.", "deep.m.")
+        u.zones["b."].rrs.append(("www.b.", A, 300, rg.v4(0x0A030002)))
+        u.zones["a."].rrs.append(("host.a.", A, 300, rg.v4(0x0A030003)))
+        u.zones["sub.b."].rrs.append(("www.sub.b.", A, 300, rg.v4(0x0A030004)))
+        u.chain = ["hoster.", "m.", "a.", "b.", "sub.b."]
+        for mode in ("r4", "rp4", "rp6"):
+            for qs in ([("www.a.", A)], [("back.a.", A)], [("deep.a.", A)], [("www.a.", TXT), ("www.a.", A)]):
+                add(u, qs, "corpus-shared-glueless-ns%d" % len(shared), mode)
+        add(u, [("www.m.", A), ("www.b.", A), ("host.a.", A), ("ns.hoster.", A), ("www.a.", A)], "corpus-shared-glueless-ns%d" % len(shared))
+    return out
+
+
 def generate(rng, tier):
     n = 500 if tier == "quick" else 6000
     batch = rg.Batch()
-    builders = corpus(batch)
+    builders = corpus(batch) + corpus_shapes(batch)
     while len(builders) < n:
+        shape = rng.choice(["rnd"] * 9 + ["retype"] * 4 + ["apex"] * 3 + ["hosted"] * 4)
         u = rg.gen_universe(rng)
-        mode = rng.choice(MODES)
-        k = rng.choice([1, 2, 3, 4, 6, 8])
-        pool = u.questions
-        qs = [(a, b) for a, b, _ in (rng.choice(pool) for _ in range(k))]
-        if rng.random() < 0.3 and len(qs) > 1:
-            qs[-1] = qs[0]                       # the same question again: answered from the cache
+        rg.enrich_universe(rng, u, hosted=True if shape == "hosted" else None)
+        usable = [m for m in MODES if rg.mode_ok(u, m)]
+        mode = rng.choice(MODES if shape == "rnd" or not usable else usable)
+        if shape == "retype":
+            qs, links = rg.retype_sequence(rng, u)
+            kind = "retype%d" % links
+        elif shape == "apex":
+            qs = rg.apex_sequence(rng, u)
+            kind = "apex"
+        elif shape == "hosted":
+            qs = rg.hosted_sequence(rng, u)
+            kind = "hosted%d" % len(u.zones["one."].ns)
+        else:
+            k = rng.choice([1, 2, 3, 4, 6, 8])
+            pool = u.questions
+            qs = [(a, b) for a, b, _ in (rng.choice(pool) for _ in range(k))]
+            if rng.random() < 0.3 and len(qs) > 1:
+                qs[-1] = qs[0]                       # the same question again: answered from the cache
+            kind = "rnd-d%d" % len(u.chain)
         builders.append(rg.CaseBuilder(batch, u, mode, 53, qs,
-                                       flags={"kind": "gen-d%d" % len(u.chain), "ff": "1", "modeok": "1" if rg.mode_ok(u, mode) else "0"}))
+                                       flags={"kind": kind, "ff": "1", "modeok": "1" if rg.mode_ok(u, mode) else "0"}))
     outs = batch.run()
     return [b.line(outs) for b in builders]
 
